@@ -141,7 +141,7 @@ type StreamConn struct {
 	Reads      int
 	Closes     int
 	Accepted   bool // handed to the server by Accept
-	FailWrites int // inject: fail the next n writes after accepting a prefix
+	FailWrites int  // inject: fail the next n writes after accepting a prefix
 }
 
 // Pair creates a connected pair (client side, server side).
@@ -152,7 +152,7 @@ func (n *Net) Pair(keep bool) (cli, srv *StreamConn) {
 	b := &half{id: n.id(), cutAt: -1, keep: keep}
 	cid, sid := n.id(), n.id()
 	cli = &StreamConn{n: n, ID: cid, Role: "cli", rx: a, tx: b,
-		local: Addr{"tcp", "10.0.0.2:"+strconv.Itoa(40000+cid)}, remote: Addr{"tcp", "10.0.0.1:53"}}
+		local: Addr{"tcp", "10.0.0.2:" + strconv.Itoa(40000+cid)}, remote: Addr{"tcp", "10.0.0.1:53"}}
 	srv = &StreamConn{n: n, ID: sid, Role: "srv", rx: b, tx: a, local: cli.remote, remote: cli.local}
 	cli.Peer, srv.Peer = srv, cli
 	n.Conns = append(n.Conns, cli, srv)
@@ -422,7 +422,7 @@ func (c *StreamConn) Close() error {
 		return ErrClosed
 	}
 	c.closed = true
-	k.EffectLocked("close #"+strconv.Itoa(c.ID))
+	k.EffectLocked("close #" + strconv.Itoa(c.ID))
 	c.rx.rclosed = true
 	if !c.tx.weof {
 		c.tx.weof = true
@@ -449,7 +449,7 @@ func (c *StreamConn) Reset() {
 	c.tx.cut = true
 	c.tx.rst = true
 	c.tx.buf = nil
-	k.EffectLocked("reset #"+strconv.Itoa(c.ID))
+	k.EffectLocked("reset #" + strconv.Itoa(c.ID))
 }
 
 //go:norace
@@ -479,7 +479,7 @@ func (c *StreamConn) SetDeadline(t time.Time) error {
 		return ErrClosed
 	}
 	c.rdl, c.wdl = t, t
-	k.EffectLocked("setdl #"+strconv.Itoa(c.ID)+" "+dlClass(t, time.Now()))
+	k.EffectLocked("setdl #" + strconv.Itoa(c.ID) + " " + dlClass(t, time.Now()))
 	return nil
 }
 
@@ -492,7 +492,7 @@ func (c *StreamConn) SetReadDeadline(t time.Time) error {
 		return ErrClosed
 	}
 	c.rdl = t
-	k.EffectLocked("setrdl #"+strconv.Itoa(c.ID)+" "+dlClass(t, time.Now()))
+	k.EffectLocked("setrdl #" + strconv.Itoa(c.ID) + " " + dlClass(t, time.Now()))
 	return nil
 }
 
@@ -505,7 +505,7 @@ func (c *StreamConn) SetWriteDeadline(t time.Time) error {
 		return ErrClosed
 	}
 	c.wdl = t
-	k.EffectLocked("setwdl #"+strconv.Itoa(c.ID)+" "+dlClass(t, time.Now()))
+	k.EffectLocked("setwdl #" + strconv.Itoa(c.ID) + " " + dlClass(t, time.Now()))
 	return nil
 }
 
@@ -579,7 +579,7 @@ func (l *Listener) Close() error {
 		return ErrClosed
 	}
 	l.closed = true
-	k.EffectLocked("lclose #"+strconv.Itoa(l.ID))
+	k.EffectLocked("lclose #" + strconv.Itoa(l.ID))
 	for _, c := range l.backlog {
 		// never accepted: the peer sees a reset
 		c.closed = true
@@ -612,7 +612,7 @@ func (n *Net) Dial(l *Listener, keep bool) *StreamConn {
 		return cli
 	}
 	l.backlog = append(l.backlog, srv)
-	n.K.EffectLocked("dial #"+strconv.Itoa(cli.ID))
+	n.K.EffectLocked("dial #" + strconv.Itoa(cli.ID))
 	return cli
 }
 
@@ -680,7 +680,7 @@ func (n *Net) DialPacket(pc *PacketConn) *DgramConn {
 	defer n.K.Unlock()
 	c := &DgramConn{srv: pc}
 	id := n.id()
-	c.endpoint = endpoint{n: n, ID: id, addr: Addr{"udp", "10.0.0.2:"+strconv.Itoa(40000+id)}}
+	c.endpoint = endpoint{n: n, ID: id, addr: Addr{"udp", "10.0.0.2:" + strconv.Itoa(40000+id)}}
 	pc.peers[c.addr.S] = c
 	return c
 }
@@ -923,7 +923,7 @@ func (e *endpoint) Close() error {
 		return ErrClosed
 	}
 	e.closed = true
-	k.EffectLocked("dclose #"+strconv.Itoa(e.ID))
+	k.EffectLocked("dclose #" + strconv.Itoa(e.ID))
 	return nil
 }
 
@@ -942,7 +942,7 @@ func (e *endpoint) SetDeadline(t time.Time) error {
 		return ErrClosed
 	}
 	e.rdl, e.wdl = t, t
-	k.EffectLocked("setdl #"+strconv.Itoa(e.ID)+" "+dlClass(t, time.Now()))
+	k.EffectLocked("setdl #" + strconv.Itoa(e.ID) + " " + dlClass(t, time.Now()))
 	return nil
 }
 
@@ -955,7 +955,7 @@ func (e *endpoint) SetReadDeadline(t time.Time) error {
 		return ErrClosed
 	}
 	e.rdl = t
-	k.EffectLocked("setrdl #"+strconv.Itoa(e.ID)+" "+dlClass(t, time.Now()))
+	k.EffectLocked("setrdl #" + strconv.Itoa(e.ID) + " " + dlClass(t, time.Now()))
 	return nil
 }
 
